@@ -6,6 +6,7 @@
 From Coq Require Import ZArith List Bool Arith Lia.
 From Verif Require Import Imp TxnTable C16_TxnApi C07_Txn C07_client C07_env.
 Import ListNotations.
+Local Open Scope nat_scope.
 
 Definition cl (s : gstate) (i : nat) : option client := nth_error (clients s) i.
 
@@ -389,3 +390,899 @@ Section ClientUpdate.
     - intros j k acc A x p B. apply (vop_same s s'); [repeat split; auto|]. eauto.
   Qed.
 End ClientUpdate.
+
+(* instances whose read fields and state are unchanged *)
+Lemma linv_client_same s s' i c c' :
+  cl s i = Some c -> cl s' i = Some c' -> (forall j, j <> i -> cl s' j = cl s j) ->
+  env_same (genv s) (genv s') -> ended s' = ended s -> same_L c c' -> linv s -> linv s'.
+Proof.
+  intros Hc Hc' Ho He Hd [A B C D E F] L.
+  apply (linv_client_upd s s' i c c'); auto.
+  - intros o acc K. rewrite F. destruct (l_8 _ L _ _ _ _ K) as (c0 & K1 & K2).
+    rewrite Hc in K1. inversion K1; subst c0. destruct K2 as [K2|(_ & K2)]; [lia | exact K2].
+  - congruence.
+Qed.
+
+Lemma env_same_refl e : env_same e e.
+Proof. repeat split. Qed.
+
+Lemma cl_put_other s i c' : forall j, j <> i -> cl (put s i c') j = cl s j.
+Proof. intros j H. apply cl_put_neq. auto. Qed.
+
+(* ---------- the events that only move state of one instance ---------------------------------------- *)
+Ltac same_tac s i c Hn L :=
+  apply (linv_client_same s (put s i _) i c _ Hn (cl_put_eq _ _ _ _ Hn) (cl_put_other _ _ _)
+                          (env_same_refl _) eq_refl); [constructor; reflexivity | exact L].
+
+Lemma linv_cst_change s i c t :
+  cl s i = Some c -> sinv c -> linv s ->
+  (cst c = READY \/ cst c = FATAL -> t = READY \/ t = FATAL) -> (t = READY -> cst c = READY \/ cst c = UNINIT) ->
+  forall c', kcur c' = kcur c -> csent c' = csent c -> cowned c' = cowned c -> capp c' = capp c ->
+             accepted c' = accepted c -> cst c' = t ->
+  forall s', cl s' i = Some c' -> (forall j, j <> i -> cl s' j = cl s j) -> env_same (genv s) (genv s') ->
+             ended s' = ended s -> linv s'.
+Proof.
+  intros Hc Si L H1 H2 c' A B C D E F s' Hc' Ho He Hd.
+  apply (linv_client_upd s s' i c c'); auto.
+  - intros o acc K. rewrite F. apply H1. destruct (l_8 _ L _ _ _ _ K) as (c0 & K1 & K2).
+    rewrite Hc in K1. inversion K1; subst c0. destruct K2 as [K2|(_ & K2)]; [lia | exact K2].
+  - rewrite F. intros K1 K2. destruct (H2 K1) as [K|K]; [exact K|].
+    destruct (s_16 _ Si K2) as (_ & K3). congruence.
+Qed.
+
+(* ---------- environment events ------------------------------------------------------------------------ *)
+Lemma vop_view_only s s' tg x p :
+  (forall q y, In y (rc_view_t (log_of q (glog (genv s)))) -> In y (rc_view_t (log_of q (glog (genv s'))))) ->
+  est (genv s) <> EPrep true -> vop s tg x p -> vop s' tg x p.
+Proof. intros V N [H|(_ & H & _)]; [left; auto | congruence]. Qed.
+
+Lemma commit_known_same s s' i k :
+  clients s' = clients s -> ended s' = ended s -> commit_known s i k -> commit_known s' i k.
+Proof. unfold commit_known, ended_committed, cl. intros -> ->. auto. Qed.
+
+Lemma linv_fence s :
+  est (genv s) = EOngoing -> linv s ->
+  linv (put_env s (env_st (genv s) (EPrep false) (S (eep (genv s))))).
+Proof.
+  intros Es [E1 E2 E3 E5 L12 L11 L10 L2 L1 L5 L6 L8 L9 L7 L14].
+  assert (V : forall tg x p, vop s tg x p -> vop (put_env s (env_st (genv s) (EPrep false) (S (eep (genv s))))) tg x p).
+  { intros tg x p. apply vop_view_only; [auto | congruence]. }
+  constructor; simpl.
+  - intros [K|(c & K)]; discriminate.
+  - intros p tg x K. destruct (E2 _ _ _ K) as (_ & A & B). split; [right; exists false; reflexivity | auto].
+  - exact E3.
+  - intros c0 K. discriminate.
+  - exact L12.
+  - exact L11.
+  - exact L10.
+  - intros i c A B K. discriminate.
+  - intros i c A B x p K. apply V. eauto.
+  - intros i k A K. discriminate.
+  - exact L6.
+  - exact L8.
+  - exact L9.
+  - exact L7.
+  - intros i k acc A x p B. apply V. eauto.
+Qed.
+
+Lemma last_done_snoc l x : last_done (l ++ [x]) = Some x.
+Proof. unfold last_done. rewrite rev_app_distr. reflexivity. Qed.
+
+Lemma linv_markers s c0 :
+  est (genv s) = EPrep c0 -> linv s ->
+  linv (put_env s (mkE (EDone c0) (eep (genv s)) (einit (genv s)) (eissued (genv s)) []
+                       (glog (genv s) ++ markers (eparts (genv s)) (eep (genv s)) c0)
+                       None (edone (genv s) ++ [(eowner (genv s), c0)]))).
+Proof.
+  intros Es [E1 E2 E3 E5 L12 L11 L10 L2 L1 L5 L6 L8 L9 L7 L14].
+  set (s' := put_env s _).
+  assert (V : forall tg x p, vop s tg x p -> vop s' tg x p).
+  { intros tg x p [K|(K1 & K2 & K3 & K4)]; left; unfold s'; simpl; rewrite view_markers.
+    - destruct (memn p (eparts (genv s)) && c0); [apply in_or_app; auto | exact K].
+    - rewrite Es in K2. inversion K2; subst c0. apply memn_In in K4. rewrite K4. simpl.
+      apply in_or_app. auto. }
+  constructor; unfold s'; simpl.
+  - auto.
+  - intros p tg x K. rewrite open_markers in K. destruct (memn p (eparts (genv s))) eqn:M; [destruct K|].
+    destruct (E2 _ _ _ K) as (_ & _ & B). apply memn_In in B. congruence.
+  - intros p tg x K. rewrite view_markers in K. apply in_or_app.
+    destruct (memn p (eparts (genv s)) && c0) eqn:M.
+    + apply in_app_or in K. destruct K as [K|K]; [left; eauto|].
+      apply andb_prop in M. destruct M as [_ M]. subst c0. right. left.
+      destruct (E2 _ _ _ K) as (_ & A & _). rewrite A. reflexivity.
+    + left. eauto.
+  - intros c1 K. inversion K; subst. eexists. apply last_done_snoc.
+  - intros i k K. discriminate.
+  - intros i c A K. discriminate.
+  - exact L10.
+  - intros i c A K1 K2. discriminate.
+  - intros i c A B x p K. apply V. eauto.
+  - intros i k K. discriminate.
+  - intros i k K. apply in_app_or in K. destruct K as [K|[K|[]]].
+    + apply (commit_known_same s); auto.
+    + inversion K; subst. apply (commit_known_same s); auto.
+  - exact L8.
+  - exact L9.
+  - exact L7.
+  - intros i k acc A x p B. apply V. eauto.
+Qed.
+
+Lemma linv_initok s ep :
+  est (genv s) = EEmpty \/ (exists c, est (genv s) = EDone c) -> linv s ->
+  linv (put_env s (mkE EEmpty ep true (ep :: eissued (genv s)) [] (glog (genv s)) None (edone (genv s)))).
+Proof.
+  intros Es [E1 E2 E3 E5 L12 L11 L10 L2 L1 L5 L6 L8 L9 L7 L14].
+  set (s' := put_env s _).
+  assert (NP : est (genv s) <> EPrep true) by (destruct Es as [K|(c & K)]; congruence).
+  assert (V : forall tg x p, vop s tg x p -> vop s' tg x p).
+  { intros tg x p. apply vop_view_only; [auto | exact NP]. }
+  constructor; unfold s'; simpl.
+  - auto.
+  - intros p tg x K. destruct (E2 _ _ _ K) as ([A|(c & A)] & _); destruct Es as [B|(c' & B)]; congruence.
+  - exact E3.
+  - intros c0 K. discriminate.
+  - intros i k K. discriminate.
+  - intros i c A K. discriminate.
+  - exact L10.
+  - intros i c A K1 K2. discriminate.
+  - intros i c A B x p K. apply V. eauto.
+  - intros i k K. discriminate.
+  - exact L6.
+  - exact L8.
+  - exact L9.
+  - exact L7.
+  - intros i k acc A x p B. apply V. eauto.
+Qed.
+
+(* ---------- begin_transaction ---------------------------------------------------------------------------- *)
+Lemma linv_begin s i c :
+  cl s i = Some c -> cst c = READY -> linv s -> linv (put s i (new_txn c IN_TXN)).
+Proof.
+  intros Hc R [E1 E2 E3 E5 L12 L11 L10 L2 L1 L5 L6 L8 L9 L7 L14].
+  set (c' := new_txn c IN_TXN). set (s' := put s i c').
+  assert (Hc' : cl s' i = Some c') by (apply (cl_put_eq s i c); exact Hc).
+  assert (Ho : forall j, j <> i -> cl s' j = cl s j) by (apply cl_put_other).
+  assert (V : forall tg x p, vop s tg x p -> vop s' tg x p) by (intros; assumption).
+  assert (EC : forall tg, ended_committed s tg -> ended_committed s' tg) by (intros; assumption).
+  assert (CK : forall j k, commit_known s j k -> commit_known s' j k).
+  { intros j k [(c0 & A & B & C)|A]; [|right; auto].
+    destruct (Nat.eq_dec j i) as [->|N].
+    - rewrite Hc in A. inversion A; subst c0. right. subst k. apply EC. apply (L9 i c); auto.
+    - left. exists c0. rewrite Ho by exact N. auto. }
+  assert (NoOwn : eowner (genv s) <> Some (i, S (kcur c))).
+  { intros K. destruct (L12 _ _ K) as (c0 & A & B). rewrite Hc in A. inversion A; subst c0. lia. }
+  constructor; unfold s'; simpl.
+  - exact E1.
+  - exact E2.
+  - exact E3.
+  - exact E5.
+  - intros j k K. destruct (L12 _ _ K) as (c0 & A & B). destruct (Nat.eq_dec j i) as [->|N].
+    + rewrite Hc in A. inversion A; subst c0. exists c'. split; [exact Hc'|]. simpl. lia.
+    + exists c0. fold s'. rewrite Ho by exact N. auto.
+  - intros j c0 A B. fold s' in A. destruct (Nat.eq_dec j i) as [->|N].
+    + rewrite Hc' in A. inversion A; subst c0. simpl in B. congruence.
+    + rewrite Ho in A by exact N. eauto.
+  - intros j c0 A B. fold s' in A. destruct (Nat.eq_dec j i) as [->|N].
+    + rewrite Hc' in A. inversion A; subst c0. reflexivity.
+    + rewrite Ho in A by exact N. eauto.
+  - intros j c0 A B C. fold s' in A. destruct (Nat.eq_dec j i) as [->|N].
+    + rewrite Hc' in A. inversion A; subst c0. simpl in B. congruence.
+    + rewrite Ho in A by exact N. eauto.
+  - intros j c0 A B x p C. fold s' in A. destruct (Nat.eq_dec j i) as [->|N].
+    + rewrite Hc' in A. inversion A; subst c0. simpl in B. discriminate.
+    + rewrite Ho in A by exact N. apply V. eauto.
+  - intros j k A B. apply CK. eauto.
+  - intros j k A. apply CK. eauto.
+  - intros j k o acc A. destruct (L8 _ _ _ _ A) as (c0 & B & C). destruct (Nat.eq_dec j i) as [->|N].
+    + rewrite Hc in B. inversion B; subst c0. exists c'. split; [exact Hc'|]. simpl. left. lia.
+    + exists c0. fold s'. rewrite Ho by exact N. auto.
+  - intros j c0 A B C. fold s' in A. destruct (Nat.eq_dec j i) as [->|N].
+    + rewrite Hc' in A. inversion A; subst c0. simpl in B. discriminate.
+    + rewrite Ho in A by exact N. apply EC. eauto.
+  - intros j k acc A. destruct (L7 _ _ _ A) as (B & C). split; [exact B|].
+    intros c0 D F. fold s' in D. destruct (Nat.eq_dec j i) as [->|N].
+    + rewrite Hc' in D. inversion D; subst c0. reflexivity.
+    + rewrite Ho in D by exact N. eauto.
+  - intros j k acc A x p B. apply V. eauto.
+Qed.
+
+(* ---------- commit / abort returns ------------------------------------------------------------------------ *)
+Lemma linv_complete s i c o :
+  cl s i = Some c -> sinv c -> linv s ->
+  (cst c = COMMITTING /\ o = OCommitted) \/ (cst c = ABORTING /\ o = OAborted) ->
+  (* the obligation at this point *)
+  (cst c = ABORTING -> csent c = false) ->
+  (slot c = Some (KEnd, SApplied) \/ accepted c = []) ->
+  forall c', same_L c (set_cst c' (cst c)) -> cst c' = READY ->
+  linv (mkG (set_nth i c' (clients s)) (genv s) (ended s ++ [(tagof i c, o, accepted c)])).
+Proof.
+  intros Hc Si [E1 E2 E3 E5 L12 L11 L10 L2 L1 L5 L6 L8 L9 L7 L14] Hst Hab Hsl c' [Sk Ss So Sa Sacc _] R.
+  simpl in Sk, Ss, So, Sa, Sacc.
+  set (s' := mkG _ _ _).
+  assert (Hc' : cl s' i = Some c') by (unfold cl, s'; simpl; eapply nth_set_nth_eq; exact Hc).
+  assert (Ho : forall j, j <> i -> cl s' j = cl s j) by (intros j N; unfold cl, s'; simpl; apply nth_set_nth_neq; auto).
+  assert (V : forall tg x p, vop s tg x p -> vop s' tg x p) by (intros; assumption).
+  assert (EC : forall tg, ended_committed s tg -> ended_committed s' tg).
+  { intros tg (acc & K). exists acc. unfold s'. simpl. apply in_or_app. auto. }
+  assert (CK : forall j k, commit_known s j k -> commit_known s' j k).
+  { intros j k [(c0 & A & B & C)|A]; [|right; auto]. left.
+    destruct (Nat.eq_dec j i) as [->|N].
+    - rewrite Hc in A. inversion A; subst c0. exists c'. rewrite Sk, Ss. auto.
+    - exists c0. rewrite Ho by exact N. auto. }
+  assert (NotEnded : forall o1 acc, ~ In ((i, kcur c), o1, acc) (ended s)).
+  { intros o1 acc K. destruct (L8 _ _ _ _ K) as (c0 & A & B). rewrite Hc in A. inversion A; subst c0.
+    destruct B as [B|(_ & [B|B])]; [lia | |]; destruct Hst as [(K1 & _)|(K1 & _)]; congruence. }
+  constructor; unfold s'; simpl.
+  - exact E1.
+  - exact E2.
+  - exact E3.
+  - exact E5.
+  - intros j k K. destruct (L12 _ _ K) as (c0 & A & B). destruct (Nat.eq_dec j i) as [->|N].
+    + rewrite Hc in A. inversion A; subst c0. exists c'. split; [exact Hc'|]. lia.
+    + exists c0. fold s'. rewrite Ho by exact N. auto.
+  - intros j c0 A B. fold s' in A. destruct (Nat.eq_dec j i) as [->|N].
+    + rewrite Hc' in A. inversion A; subst c0. rewrite So. apply (L11 i c Hc). congruence.
+    + rewrite Ho in A by exact N. eauto.
+  - intros j c0 A B. fold s' in A. destruct (Nat.eq_dec j i) as [->|N].
+    + rewrite Hc' in A. inversion A; subst c0. rewrite Sa. apply (L10 i c Hc). congruence.
+    + rewrite Ho in A by exact N. eauto.
+  - intros j c0 A B C. fold s' in A. destruct (Nat.eq_dec j i) as [->|N].
+    + rewrite Hc' in A. inversion A; subst c0. rewrite Sa, Sk. apply (L2 i c Hc); congruence.
+    + rewrite Ho in A by exact N. eauto.
+  - intros j c0 A B x p C. fold s' in A. apply V. destruct (Nat.eq_dec j i) as [->|N].
+    + rewrite Hc' in A. inversion A; subst c0. rewrite Sk. apply (L1 i c Hc); congruence.
+    + rewrite Ho in A by exact N. eauto.
+  - intros j k A B. apply CK. eauto.
+  - intros j k A. apply CK. eauto.
+  - intros j k o1 acc A. apply in_app_or in A. destruct A as [A|[A|[]]].
+    + destruct (L8 _ _ _ _ A) as (c0 & B & C). destruct (Nat.eq_dec j i) as [->|N].
+      * rewrite Hc in B. inversion B; subst c0. exists c'. split; [exact Hc'|]. rewrite Sk.
+        destruct C as [C|(C1 & C2)]; [auto|]. subst k. exfalso. eapply NotEnded; eauto.
+      * exists c0. fold s'. rewrite Ho by exact N. auto.
+    + inversion A; subst. exists c'. split; [exact Hc'|]. right. auto.
+  - intros j c0 A B C. fold s' in A. destruct (Nat.eq_dec j i) as [->|N].
+    + rewrite Hc' in A. inversion A; subst c0. rewrite Sk. rewrite Ss in B.
+      destruct Hst as [(K1 & K2)|(K1 & K2)].
+      * subst o. exists (accepted c). apply in_or_app. right. left. reflexivity.
+      * rewrite (Hab K1) in B. discriminate.
+    + rewrite Ho in A by exact N. apply EC. eauto.
+  - intros j k acc A. apply in_app_or in A. destruct A as [A|[A|[]]].
+    + destruct (L7 _ _ _ A) as (B & C). split.
+      * intros (acc' & K). apply in_app_or in K. destruct K as [K|[K|[]]]; [apply B; exists acc'; exact K|].
+        inversion K; subst. eapply NotEnded; eauto.
+      * intros c0 D F. fold s' in D. destruct (Nat.eq_dec j i) as [->|N].
+        -- rewrite Hc' in D. inversion D; subst c0. rewrite Ss. apply (C c Hc). congruence.
+        -- rewrite Ho in D by exact N. eauto.
+    + inversion A; subst. destruct Hst as [(K1 & K2)|(K1 & K2)]; [discriminate|]. split.
+      * intros (acc' & K). apply in_app_or in K. destruct K as [K|[K|[]]]; [eapply NotEnded; eauto|].
+        inversion K.
+      * intros c0 D F. fold s' in D. rewrite Hc' in D. inversion D; subst c0. rewrite Ss. auto.
+  - intros j k acc A x p B. apply V. apply in_app_or in A. destruct A as [A|[A|[]]]; [eauto|].
+    inversion A; subst. destruct Hst as [(K1 & K2)|(K1 & K2)]; [|discriminate].
+    destruct Hsl as [Hsl|Hsl].
+    + apply (L1 j c Hc); [apply (s_13 _ Si); auto | exact B].
+    + rewrite Hsl in B. destruct B.
+Qed.
+
+(* ---------- AddPartitionsToTxn / AddOffsetsToTxn applied ------------------------------------------------ *)
+Lemma linv_add s i c ps c' :
+  cl s i = Some c -> linv s -> not_prep (genv s) = true ->
+  (* obligation 3 *)
+  (if is_ongoing (genv s) then eowner (genv s) = Some (i, kcur c) else cowned c = false) ->
+  kcur c' = kcur c -> csent c' = csent c -> capp c' = capp c -> accepted c' = accepted c -> cst c' = cst c ->
+  cowned c' = (cowned c || negb (is_ongoing (genv s))) ->
+  linv (put_env (put s i c') (env_add (genv s) ps (tagof i c))).
+Proof.
+  intros Hc [E1 E2 E3 E5 L12 L11 L10 L2 L1 L5 L6 L8 L9 L7 L14] NP Ob Sk Ss Sa Sacc Sst So.
+  set (s' := put_env _ _).
+  assert (Hc' : cl s' i = Some c') by (apply (cl_put_eq s i c); exact Hc).
+  assert (Ho : forall j, j <> i -> cl s' j = cl s j) by (apply cl_put_other).
+  assert (NPt : est (genv s) <> EPrep true).
+  { unfold not_prep in NP. destruct (est (genv s)); congruence. }
+  assert (V : forall tg x p, vop s tg x p -> vop s' tg x p).
+  { intros tg x p. apply vop_view_only; [auto | exact NPt]. }
+  assert (EC : forall tg, ended_committed s tg -> ended_committed s' tg) by (intros; assumption).
+  assert (CK : forall j k, commit_known s j k -> commit_known s' j k).
+  { intros j k [(c0 & A & B & C)|A]; [|right; auto]. left.
+    destruct (Nat.eq_dec j i) as [->|N].
+    - rewrite Hc in A. inversion A; subst c0. exists c'. rewrite Sk, Ss. auto.
+    - exists c0. rewrite Ho by exact N. auto. }
+  assert (OngE : is_ongoing (genv s) = true -> est (genv s) = EOngoing).
+  { unfold is_ongoing. destruct (est (genv s)); congruence. }
+  constructor; unfold s'; simpl.
+  - intros [K|(b & K)]; discriminate.
+  - intros p tg x K. destruct (E2 _ _ _ K) as (A & B & C).
+    assert (Og : is_ongoing (genv s) = true).
+    { unfold is_ongoing, not_prep in *. destruct A as [A|(b & A)]; rewrite A in *; [reflexivity | discriminate]. }
+    rewrite Og. split; [left; reflexivity|]. split; [exact B|]. apply unionn_In. auto.
+  - exact E3.
+  - intros c0 K. discriminate.
+  - intros j k K. destruct (is_ongoing (genv s)) eqn:Og.
+    + destruct (L12 _ _ K) as (c0 & A & B). destruct (Nat.eq_dec j i) as [->|N].
+      * rewrite Hc in A. inversion A; subst c0. exists c'. split; [exact Hc'|]. lia.
+      * exists c0. fold s'. rewrite Ho by exact N. auto.
+    + inversion K; subst. exists c'. split; [exact Hc'|]. lia.
+  - intros j c0 A B. fold s' in A. destruct (Nat.eq_dec j i) as [->|N].
+    + rewrite Hc' in A. inversion A; subst c0. rewrite So. destruct (is_ongoing (genv s)) eqn:Og.
+      * rewrite (L11 i c Hc); [reflexivity | congruence].
+      * apply orb_true_r.
+    + rewrite Ho in A by exact N. destruct (is_ongoing (genv s)) eqn:Og; [eauto|].
+      inversion B. congruence.
+  - intros j c0 A B. fold s' in A. destruct (Nat.eq_dec j i) as [->|N].
+    + rewrite Hc' in A. inversion A; subst c0. rewrite Sa. rewrite So in B.
+      apply orb_false_iff in B. destruct B as [B _]. eauto.
+    + rewrite Ho in A by exact N. eauto.
+  - intros j c0 A B _ x p C. fold s' in A. destruct (is_ongoing (genv s)) eqn:Og.
+    + assert (K : In ((j, kcur c0), x) (rc_open_t (log_of p (glog (genv s)))) /\ In p (eparts (genv s))).
+      { destruct (Nat.eq_dec j i) as [->|N].
+        - rewrite Hc' in A. inversion A; subst c0. rewrite Sk. rewrite Sa in C. rewrite Sk in B.
+          apply (L2 i c Hc); auto.
+        - rewrite Ho in A by exact N. apply (L2 j c0 A); auto. }
+      destruct K as (K1 & K2). split; [exact K1 | apply unionn_In; auto].
+    + inversion B; subst. rewrite Hc' in A. inversion A; subst c0. rewrite Sa in C.
+      rewrite (L10 j c Hc Ob) in C. destruct C.
+  - intros j c0 A B x p C. fold s' in A. apply V. destruct (Nat.eq_dec j i) as [->|N].
+    + rewrite Hc' in A. inversion A; subst c0. rewrite Sk. apply (L1 i c Hc); congruence.
+    + rewrite Ho in A by exact N. eauto.
+  - intros j k A K. discriminate.
+  - intros j k A. apply CK. eauto.
+  - intros j k o acc A. destruct (L8 _ _ _ _ A) as (c0 & B & C). destruct (Nat.eq_dec j i) as [->|N].
+    + rewrite Hc in B. inversion B; subst c0. exists c'. split; [exact Hc'|]. rewrite Sk, Sst. exact C.
+    + exists c0. fold s'. rewrite Ho by exact N. auto.
+  - intros j c0 A B C. fold s' in A. apply EC. destruct (Nat.eq_dec j i) as [->|N].
+    + rewrite Hc' in A. inversion A; subst c0. rewrite Sk. apply (L9 i c Hc); congruence.
+    + rewrite Ho in A by exact N. eauto.
+  - intros j k acc A. destruct (L7 _ _ _ A) as (B & C). split; [exact B|].
+    intros c0 D F. fold s' in D. destruct (Nat.eq_dec j i) as [->|N].
+    + rewrite Hc' in D. inversion D; subst c0. rewrite Ss. apply (C c Hc). congruence.
+    + rewrite Ho in D by exact N. eauto.
+  - intros j k acc A x p B. apply V. eauto.
+Qed.
+
+(* ---------- a data entry is appended (Produce / TxnOffsetCommit applied) -------------------------------- *)
+Lemma linv_append s i c p ep items c' :
+  cl s i = Some c -> linv s ->
+  (* obligations 1 and 3 *)
+  est (genv s) = EOngoing -> In p (eparts (genv s)) -> eowner (genv s) = Some (i, kcur c) ->
+  kcur c' = kcur c -> csent c' = csent c -> cowned c' = cowned c -> accepted c' = accepted c -> cst c' = cst c ->
+  capp c' = capp c ++ pairs p items ->
+  linv (put_env (put s i c') (env_append (genv s) p (Data ep (i, kcur c) items))).
+Proof.
+  intros Hc [E1 E2 E3 E5 L12 L11 L10 L2 L1 L5 L6 L8 L9 L7 L14] Es Ep Eo Sk Ss So Sacc Sst Sa.
+  set (s' := put_env _ _).
+  assert (Hc' : cl s' i = Some c') by (apply (cl_put_eq s i c); exact Hc).
+  assert (Ho : forall j, j <> i -> cl s' j = cl s j) by (apply cl_put_other).
+  assert (V : forall tg x q, vop s tg x q -> vop s' tg x q).
+  { intros tg x q. apply vop_view_only; [|congruence]. intros q0 y K. unfold s'. simpl.
+    rewrite view_append_data. exact K. }
+  assert (EC : forall tg, ended_committed s tg -> ended_committed s' tg) by (intros; assumption).
+  assert (CK : forall j k, commit_known s j k -> commit_known s' j k).
+  { intros j k [(c0 & A & B & C)|A]; [|right; auto]. left.
+    destruct (Nat.eq_dec j i) as [->|N].
+    - rewrite Hc in A. inversion A; subst c0. exists c'. rewrite Sk, Ss. auto.
+    - exists c0. rewrite Ho by exact N. auto. }
+  constructor; unfold s'; simpl.
+  - rewrite Es. intros [K|(b & K)]; discriminate.
+  - intros q tg x K. rewrite open_append_data in K. apply in_app_or in K. destruct K as [K|K].
+    + exact (E2 _ _ _ K).
+    + destruct (Nat.eqb p q) eqn:Epq; [|destruct K]. apply Nat.eqb_eq in Epq. subst q.
+      apply in_map_iff in K. destruct K as (y & K1 & K2). inversion K1; subst.
+      split; [left; exact Es|]. split; [exact Eo | exact Ep].
+  - intros q tg x K. rewrite view_append_data in K. eauto.
+  - rewrite Es. intros c0 K. discriminate.
+  - intros j k K. destruct (L12 _ _ K) as (c0 & A & B). destruct (Nat.eq_dec j i) as [->|N].
+    + rewrite Hc in A. inversion A; subst c0. exists c'. split; [exact Hc'|]. lia.
+    + exists c0. fold s'. rewrite Ho by exact N. auto.
+  - intros j c0 A B. fold s' in A. destruct (Nat.eq_dec j i) as [->|N].
+    + rewrite Hc' in A. inversion A; subst c0. rewrite So. apply (L11 i c Hc). congruence.
+    + rewrite Ho in A by exact N. eauto.
+  - intros j c0 A B. fold s' in A. destruct (Nat.eq_dec j i) as [->|N].
+    + rewrite Hc' in A. inversion A; subst c0. rewrite So in B.
+      rewrite (L11 i c Hc Eo) in B. discriminate.
+    + rewrite Ho in A by exact N. eauto.
+  - intros j c0 A B _ x q C. fold s' in A. rewrite open_append_data.
+    destruct (Nat.eq_dec j i) as [->|N].
+    + rewrite Hc' in A. inversion A; subst c0. rewrite Sk. rewrite Sa in C. apply in_app_or in C.
+      destruct C as [C|C].
+      * destruct (L2 i c Hc Eo Es _ _ C) as (K1 & K2). split; [apply in_or_app; left; exact K1 | exact K2].
+      * unfold pairs in C. apply in_map_iff in C. destruct C as (y & C1 & C2). inversion C1; subst.
+        split; [|exact Ep]. apply in_or_app. right. rewrite Nat.eqb_refl. apply in_map_iff. eauto.
+    + rewrite Ho in A by exact N. rewrite Eo in B. inversion B. congruence.
+  - intros j c0 A B x q C. fold s' in A. apply V. destruct (Nat.eq_dec j i) as [->|N].
+    + rewrite Hc' in A. inversion A; subst c0. rewrite Sk. apply (L1 i c Hc); congruence.
+    + rewrite Ho in A by exact N. eauto.
+  - rewrite Es. intros j k A K. discriminate.
+  - intros j k A. apply CK. eauto.
+  - intros j k o acc A. destruct (L8 _ _ _ _ A) as (c0 & B & C). destruct (Nat.eq_dec j i) as [->|N].
+    + rewrite Hc in B. inversion B; subst c0. exists c'. split; [exact Hc'|]. rewrite Sk, Sst. exact C.
+    + exists c0. fold s'. rewrite Ho by exact N. auto.
+  - intros j c0 A B C. fold s' in A. apply EC. destruct (Nat.eq_dec j i) as [->|N].
+    + rewrite Hc' in A. inversion A; subst c0. rewrite Sk. apply (L9 i c Hc); congruence.
+    + rewrite Ho in A by exact N. eauto.
+  - intros j k acc A. destruct (L7 _ _ _ A) as (B & C). split; [exact B|].
+    intros c0 D F. fold s' in D. destruct (Nat.eq_dec j i) as [->|N].
+    + rewrite Hc' in D. inversion D; subst c0. rewrite Ss. apply (C c Hc). congruence.
+    + rewrite Ho in D by exact N. eauto.
+  - intros j k acc A x q B. apply V. eauto.
+Qed.
+
+(* ---------- EndTxn applied ---------------------------------------------------------------------------------- *)
+Lemma linv_endtxn s i c commit c' :
+  cl s i = Some c -> linv s -> cinv c ->
+  cst c = COMMITTING /\ commit = true \/ cst c = ABORTING /\ commit = false ->
+  queue c = [] -> inflight c = [] -> pend_offs c = [] ->
+  kcur c' = kcur c -> cowned c' = cowned c -> capp c' = capp c -> accepted c' = accepted c -> cst c' = cst c ->
+  csent c' = (csent c || commit) ->
+  (* obligations 2/3, coordinator Ongoing *)
+  (est (genv s) = EOngoing -> eowner (genv s) = Some (i, kcur c) /\ (commit = true -> lostb c = false)) ->
+  (* obligation 4, coordinator already Complete *)
+  (forall c0, est (genv s) = EDone c0 -> c0 = commit /\ exists b, last_done (edone (genv s)) = Some (Some (i, kcur c), b)) ->
+  forall env', (est (genv s) = EOngoing /\ env' = env_st (genv s) (EPrep commit) (eep (genv s))) \/
+               ((exists c0, est (genv s) = EDone c0) /\ env' = genv s) ->
+  linv (put_env (put s i c') env').
+Proof.
+  intros Hc L Ci Hst Q I Po Sk So Sa Sacc Sst Ss ObO ObD env' Henv.
+  pose proof L as [E1 E2 E3 E5 L12 L11 L10 L2 L1 L5 L6 L8 L9 L7 L14].
+  set (s' := put_env _ _).
+  assert (Hc' : cl s' i = Some c') by (apply (cl_put_eq s i c); exact Hc).
+  assert (Ho : forall j, j <> i -> cl s' j = cl s j) by (apply cl_put_other).
+  assert (NPt : est (genv s) <> EPrep true) by (destruct Henv as [(K & _)|((c0 & K) & _)]; congruence).
+  assert (Gl : glog env' = glog (genv s) /\ eowner env' = eowner (genv s) /\ eparts env' = eparts (genv s)
+               /\ edone env' = edone (genv s)).
+  { destruct Henv as [(_ & ->)|(_ & ->)]; repeat split. }
+  destruct Gl as (Gl & Go & Gp & Gd).
+  assert (V : forall tg x p, vop s tg x p -> vop s' tg x p).
+  { intros tg x p. apply vop_view_only; [|exact NPt]. intros q y K. unfold s'. simpl. rewrite Gl. exact K. }
+  assert (EC : forall tg, ended_committed s tg -> ended_committed s' tg) by (intros; assumption).
+  assert (CK : forall j k, commit_known s j k -> commit_known s' j k).
+  { intros j k [(c0 & A & B & C)|A]; [|right; auto]. left.
+    destruct (Nat.eq_dec j i) as [->|N].
+    - rewrite Hc in A. inversion A; subst c0. exists c'. rewrite Sk, Ss, C. auto.
+    - exists c0. rewrite Ho by exact N. auto. }
+  assert (NotEnded : forall o1 acc, ~ In ((i, kcur c), o1, acc) (ended s)).
+  { intros o1 acc K. destruct (L8 _ _ _ _ K) as (c0 & A & B). rewrite Hc in A. inversion A; subst c0.
+    destruct B as [B|(_ & [B|B])]; [lia | |]; destruct Hst as [(K1 & _)|(K1 & _)]; congruence. }
+  constructor; unfold s'; simpl; rewrite ?Gl, ?Go, ?Gp, ?Gd.
+  - destruct Henv as [(K & ->)|((c0 & K) & ->)]; simpl; [intros [K1|(b & K1)]; discriminate | exact E1].
+  - intros p tg x K. destruct (E2 _ _ _ K) as (A & B & C). split; [|auto].
+    destruct Henv as [(K1 & ->)|((c0 & K1) & ->)]; simpl; [right; exists commit; reflexivity | exact A].
+  - exact E3.
+  - destruct Henv as [(K & ->)|((c0 & K) & ->)]; simpl; [intros c1 K1; discriminate | exact E5].
+  - intros j k K. destruct (L12 _ _ K) as (c0 & A & B). destruct (Nat.eq_dec j i) as [->|N].
+    + rewrite Hc in A. inversion A; subst c0. exists c'. split; [exact Hc'|]. lia.
+    + exists c0. fold s'. rewrite Ho by exact N. auto.
+  - intros j c0 A B. fold s' in A. destruct (Nat.eq_dec j i) as [->|N].
+    + rewrite Hc' in A. inversion A; subst c0. rewrite So. apply (L11 i c Hc). congruence.
+    + rewrite Ho in A by exact N. eauto.
+  - intros j c0 A B. fold s' in A. destruct (Nat.eq_dec j i) as [->|N].
+    + rewrite Hc' in A. inversion A; subst c0. rewrite Sa. apply (L10 i c Hc). congruence.
+    + rewrite Ho in A by exact N. eauto.
+  - intros j c0 A B C. destruct Henv as [(K & ->)|((c1 & K) & ->)]; simpl in C; [discriminate | congruence].
+  - intros j c0 A B x p C. fold s' in A. destruct (Nat.eq_dec j i) as [->|N].
+    + rewrite Hc' in A. inversion A; subst c0. rewrite Sk. rewrite Sacc in C. rewrite Ss in B.
+      destruct (csent c) eqn:Cs; [apply V; apply (L1 i c Hc); auto|]. simpl in B. subst commit.
+      destruct Hst as [(St & _)|(_ & K)]; [|discriminate].
+      destruct Henv as [(Es & ->)|((c1 & Es) & ->)].
+      * (* first EndTxn(commit) of this transaction: everything accepted is in the open part of
+           registered partitions, the coordinator is now PrepareCommit *)
+        destruct (ObO Es) as (Ow & Lb). specialize (Lb eq_refl).
+        destruct (ci_acc _ Ci Lb _ _ C) as [K|[(b & K1 & _)|(_ & l & K1 & _)]].
+        -- destruct (L2 i c Hc Ow Es _ _ K) as (K1 & K2). right. simpl. rewrite Ow. auto.
+        -- rewrite Q, I in K1. destruct K1.
+        -- rewrite Po in K1. destruct K1.
+      * (* answered "already complete" without our EndTxn having been applied before: impossible *)
+        exfalso. destruct (ObD _ Es) as (-> & b & Ld). destruct (E5 _ Es) as (o & Ld2).
+        rewrite Ld in Ld2. inversion Ld2; subst.
+        assert (In (Some (i, kcur c), true) (edone (genv s))).
+        { unfold last_done in Ld. destruct (rev (edone (genv s))) eqn:R; [discriminate|].
+          inversion Ld; subst. rewrite (in_rev (edone (genv s))). rewrite R. left. reflexivity. }
+        destruct (L6 _ _ H) as [(c0 & A1 & A2 & A3)|(acc & A1)].
+        -- rewrite Hc in A1. inversion A1; subst c0. congruence.
+        -- eapply NotEnded; eauto.
+    + rewrite Ho in A by exact N. apply V. eauto.
+  - intros j k A B. destruct Henv as [(Es & ->)|((c1 & Es) & ->)]; simpl in B; [|congruence].
+    inversion B; subst commit. destruct (ObO Es) as (Ow & _). rewrite Ow in A. inversion A; subst.
+    left. exists c'. split; [exact Hc'|]. rewrite Sk, Ss. split; [reflexivity | apply orb_true_r].
+  - intros j k A. apply CK. eauto.
+  - intros j k o acc A. destruct (L8 _ _ _ _ A) as (c0 & B & C). destruct (Nat.eq_dec j i) as [->|N].
+    + rewrite Hc in B. inversion B; subst c0. exists c'. split; [exact Hc'|]. rewrite Sk, Sst. exact C.
+    + exists c0. fold s'. rewrite Ho by exact N. auto.
+  - intros j c0 A B C. fold s' in A. apply EC. destruct (Nat.eq_dec j i) as [->|N].
+    + rewrite Hc' in A. inversion A; subst c0. rewrite Sst in C.
+      destruct Hst as [(K & _)|(K & _)]; congruence.
+    + rewrite Ho in A by exact N. eauto.
+  - intros j k acc A. destruct (L7 _ _ _ A) as (B & C). split; [exact B|].
+    intros c0 D F. fold s' in D. destruct (Nat.eq_dec j i) as [->|N].
+    + rewrite Hc' in D. inversion D; subst c0. exfalso. rewrite Sk in F. subst k. eapply NotEnded; eauto.
+    + rewrite Ho in D by exact N. eauto.
+  - intros j k acc A x p B. apply V. eauto.
+Qed.
+
+(* ---------- every step that respects the obligations preserves the invariant ------------------------- *)
+Lemma linv_put_same s i c c' : cl s i = Some c -> same_L c c' -> linv s -> linv (put s i c').
+Proof.
+  intros Hc S L. apply (linv_client_same s (put s i c') i c c'); auto.
+  - eapply cl_put_eq; eauto.
+  - apply cl_put_other.
+  - apply env_same_refl.
+Qed.
+
+Lemma linv_put_cst s i c c' t :
+  cl s i = Some c -> sinv c -> linv s ->
+  (cst c = READY \/ cst c = FATAL -> t = READY \/ t = FATAL) -> (t = READY -> cst c = READY \/ cst c = UNINIT) ->
+  kcur c' = kcur c -> csent c' = csent c -> cowned c' = cowned c -> capp c' = capp c ->
+  accepted c' = accepted c -> cst c' = t -> linv (put s i c').
+Proof.
+  intros Hc Si L H1 H2 A B C D E F.
+  apply (linv_cst_change s i c t Hc Si L H1 H2 c' A B C D E F (put s i c')); auto.
+  - eapply cl_put_eq; eauto.
+  - apply cl_put_other.
+  - apply env_same_refl.
+Qed.
+
+Lemma linv_put_accept s i c c' :
+  cl s i = Some c -> linv s -> csent c = false ->
+  kcur c' = kcur c -> csent c' = csent c -> cowned c' = cowned c -> capp c' = capp c -> cst c' = cst c ->
+  linv (put s i c').
+Proof.
+  intros Hc L Cs A B C D F.
+  apply (linv_client_upd s (put s i c') i c c'); auto.
+  - eapply cl_put_eq; eauto.
+  - apply cl_put_other.
+  - apply env_same_refl.
+  - intros o acc K. rewrite F. destruct (l_8 _ L _ _ _ _ K) as (c0 & K1 & K2).
+    rewrite Hc in K1. inversion K1; subst c0. destruct K2 as [K2|(_ & K2)]; [lia | exact K2].
+  - congruence.
+Qed.
+
+Lemma owner_is_true e t : owner_is e t = true -> eowner e = Some t.
+Proof.
+  unfold owner_is. destruct (eowner e) as [[a b]|]; [|discriminate]. destruct t as [a' b'].
+  unfold tag_eqb. simpl. intros H. apply andb_prop in H. destruct H as [H1 H2].
+  apply Nat.eqb_eq in H1. apply Nat.eqb_eq in H2. subst. reflexivity.
+Qed.
+Lemma is_ongoing_true e : is_ongoing e = true -> est e = EOngoing.
+Proof. unfold is_ongoing. destruct (est e); congruence. Qed.
+
+Lemma step_linv s e s' : step_ob s e = Some s' -> gcinv s -> gsinv s -> linv s -> linv s'.
+Proof.
+  unfold step_ob. intros H GC GS L. destruct (ob s e) eqn:Ob; [discriminate|].
+  destruct e; unfold step in H; cbv beta iota zeta in H.
+  - (* EFence *) destruct (est (genv s)) eqn:Es; inv_some. apply linv_fence; auto.
+  - (* EMarkers *) destruct (est (genv s)) eqn:Es; inv_some. apply linv_markers; auto.
+  - (* EInitOk *)
+    destruct (est (genv s)) eqn:Es; inv_some; apply linv_initok; auto. right. eauto.
+  - (* AStart *)
+    destruct (get s i) as [c|] eqn:Hg; [|discriminate]. destruct (get_some _ _ _ Hg) as (Hn & _).
+    destruct (cst c) eqn:E0; try discriminate. destruct (trans UNINIT READY) eqn:T; [|discriminate].
+    destruct (memn ep (eissued (genv s))); [|discriminate]. inv_some.
+    pose proof (trans_target _ _ _ T). subst t.
+    apply (linv_cst_change s i c READY Hn (gsinv_get _ _ _ GS Hn) L) with (c' := set_cep (set_cst c READY) ep);
+      try reflexivity.
+    + rewrite E0. intros [K|K]; discriminate.
+    + auto.
+    + unfold cl. simpl. eapply nth_set_nth_eq; eauto.
+    + intros j N. unfold cl. simpl. apply nth_set_nth_neq. auto.
+    + repeat split.
+  - (* ABegin *)
+    wc H c c' Hg Hf. destruct (get_some _ _ _ Hg) as (Hn & _).
+    destruct (slot c); [discriminate|]. destruct (trans (cst c) IN_TXN) eqn:T; [|discriminate]. inv_some.
+    pose proof (trans_target _ _ _ T). subst t. apply trans_in_txn in T.
+    apply linv_begin; auto.
+  - (* AAccept *)
+    wc H c c' Hg Hf. destruct (get_some _ _ _ Hg) as (Hn & _).
+    pose proof (gsinv_get _ _ _ GS Hn) as Si.
+    destruct (cst c) eqn:S; try discriminate.
+    assert (Cs : csent c = false).
+    { destruct (csent c) eqn:K; [|reflexivity]. destruct (s_16 _ Si K) as (K1 & _). congruence. }
+    destruct (Nat.eqb p GROUPP); [discriminate|].
+    destruct newb.
+    + destruct (has_part_q p (queue c) || has_bid b (queue c ++ inflight c ++ deadb c)); [discriminate|].
+      inv_some. apply (linv_put_accept s i c); auto.
+    + destruct (snoc_item p b x (queue c)); [|discriminate]. inv_some.
+      apply (linv_put_accept s i c); auto.
+  - (* AOffsets *)
+    wc H c c' Hg Hf. destruct (get_some _ _ _ Hg) as (Hn & _).
+    pose proof (gsinv_get _ _ _ GS Hn) as Si.
+    destruct (cst c) eqn:S; try discriminate. inv_some.
+    assert (Cs : csent c = false).
+    { destruct (csent c) eqn:K; [|reflexivity]. destruct (s_16 _ Si K) as (K1 & _). congruence. }
+    apply (linv_put_accept s i c); auto.
+  - (* ACommitting *)
+    wc H c c' Hg Hf. destruct (get_some _ _ _ Hg) as (Hn & _).
+    destruct (trans (cst c) COMMITTING) eqn:T.
+    + pose proof (trans_target _ _ _ T). subst t. pose proof (trans_committing _ _ T) as S.
+      assert (c' = set_cst c COMMITTING) by (rewrite S in Hf; inversion Hf; reflexivity). subst c'.
+      apply (linv_put_cst s i c _ COMMITTING Hn (gsinv_get _ _ _ GS Hn) L); try reflexivity.
+      * rewrite S. intros [K|K]; discriminate.
+      * discriminate.
+    + destruct (cst c); discriminate.
+  - (* AAborting *)
+    wc H c c' Hg Hf. destruct (get_some _ _ _ Hg) as (Hn & _).
+    destruct (trans (cst c) ABORTING) eqn:T; [|discriminate]. inv_some.
+    pose proof (trans_target _ _ _ T). subst t.
+    apply (linv_put_cst s i c _ ABORTING Hn (gsinv_get _ _ _ GS Hn) L); try reflexivity.
+    + destruct (trans_aborting _ _ T) as [S|S]; rewrite S; intros [K|K]; discriminate.
+    + discriminate.
+  - (* AComplete *)
+    destruct (get s i) as [c|] eqn:Hg; [|discriminate]. destruct (get_some _ _ _ Hg) as (Hn & _).
+    unfold ob in Ob. rewrite Hg in Ob.
+    match type of H with (if ?g then _ else _) = _ => destruct g eqn:Gd; [|discriminate] end.
+    apply andb_prop in Gd. destruct Gd as [_ Gs].
+    assert (K : exists t o, trans (cst c) READY = Some t /\
+                  (cst c = COMMITTING /\ o = OCommitted \/ cst c = ABORTING /\ o = OAborted) /\
+                  s' = mkG (set_nth i (set_deadb (set_grp (set_parts (set_cst c t) [] (pend_parts c)) false) [])
+                                    (clients s)) (genv s) (ended s ++ [(tagof i c, o, accepted c)])).
+    { destruct (cst c); try discriminate; destruct (trans _ READY) eqn:T; try discriminate;
+        inversion H; do 2 eexists; (split; [reflexivity|]); (split; [|reflexivity]); auto. }
+    destruct K as (t & o & T & Hst & ->). pose proof (trans_target _ _ _ T). subst t.
+    apply linv_complete; auto.
+    + eapply gsinv_get; eauto.
+    + intros K. rewrite K in Ob. destruct (csent c); [discriminate | reflexivity].
+    + destruct (match cst c with ABORTING => csent c | _ => false end); [discriminate|].
+      destruct (slot_is c KEnd SApplied) eqn:Sl; [left; apply slot_is_true; exact Sl|].
+      right. destruct (accepted c); [reflexivity | discriminate].
+    + constructor; reflexivity.
+  - (* AError *)
+    wc H c c' Hg Hf. destruct (get_some _ _ _ Hg) as (Hn & _).
+    assert (K : exists t, trans (cst c) ABORTABLE = Some t /\ c' = c_clear c t /\
+                          (cst c = IN_TXN \/ cst c = COMMITTING \/ cst c = ABORTING)).
+    { destruct (slot c) as [[[] ?]|]; try discriminate; destruct (cst c); try discriminate;
+        match type of Hf with match ?t with _ => _ end = _ => destruct t eqn:T end; try discriminate;
+        inversion Hf; eexists; (split; [reflexivity|]); (split; [reflexivity|]); auto. }
+    destruct K as (t & T & -> & St). pose proof (trans_target _ _ _ T). subst t.
+    apply (linv_put_cst s i c _ ABORTABLE Hn (gsinv_get _ _ _ GS Hn) L); try reflexivity.
+    + intros [K|K]; destruct St as [K1|[K1|K1]]; congruence.
+    + discriminate.
+  - (* AFatal *)
+    wc H c c' Hg Hf. destruct (get_some _ _ _ Hg) as (Hn & _).
+    destruct (trans (cst c) FATAL) eqn:T; [|discriminate]. inv_some.
+    pose proof (trans_target _ _ _ T). subst t.
+    apply (linv_put_cst s i c _ FATAL Hn (gsinv_get _ _ _ GS Hn) L); try reflexivity.
+    + auto.
+    + discriminate.
+  - (* AKill *)
+    destruct (nth_error (clients s) i) as [c|] eqn:Hn; [|discriminate]. inv_some.
+    apply (linv_put_same s i c); auto. constructor; reflexivity.
+  - (* TPick *)
+    wc H c c' Hg Hf. destruct (get_some _ _ _ Hg) as (Hn & _).
+    destruct (slot c); [discriminate|].
+    destruct k as [k1|]; destruct (next_kind c) as [k2|]; try discriminate.
+    + destruct (skind_eqb k1 k2); [|discriminate]. inv_some.
+      apply (linv_put_same s i c); auto. constructor; reflexivity.
+    + inv_some. apply (linv_put_same s i c'); auto. constructor; reflexivity.
+  - (* TDone *)
+    wc H c c' Hg Hf. destruct (get_some _ _ _ Hg) as (Hn & _).
+    destruct (slot c); [|discriminate]. inv_some.
+    apply (linv_put_same s i c); auto. constructor; reflexivity.
+  - (* CPartAdded *)
+    wc H c c' Hg Hf. destruct (get_some _ _ _ Hg) as (Hn & _).
+    destruct (slot_is c KParts SApplied && memn p (pend_parts c)); [|discriminate]. inv_some.
+    apply (linv_put_same s i c); auto. constructor; reflexivity.
+  - (* CGroupAdded *)
+    wc H c c' Hg Hf. destruct (get_some _ _ _ Hg) as (Hn & _).
+    destruct (slot_is c KOffs SApplied); [|discriminate]. inv_some.
+    apply (linv_put_same s i c); auto. constructor; reflexivity.
+  - (* COffCommitted *)
+    wc H c c' Hg Hf. destruct (get_some _ _ _ Hg) as (Hn & _).
+    destruct (slot_is c KToc SApplied && memn x (ctoc c)); [|discriminate].
+    destruct (pend_offs c) as [|items rest]; [discriminate|].
+    destruct (memn x items); [|discriminate]. inv_some.
+    apply (linv_put_same s i c); auto. constructor; reflexivity.
+  - (* SDrain *)
+    wc H c c' Hg Hf. destruct (get_some _ _ _ Hg) as (Hn & _).
+    destruct (take_bid b (queue c)) as [[x q]|]; [|discriminate].
+    destruct (head_of (bpart x) (queue c)); [|discriminate].
+    match type of Hf with (if ?g then _ else _) = _ => destruct g; [|discriminate] end. inv_some.
+    apply (linv_put_same s i c); auto. constructor; reflexivity.
+  - (* SOk *)
+    wc H c c' Hg Hf. destruct (get_some _ _ _ Hg) as (Hn & _).
+    destruct (take_bid b (inflight c)) as [[x f]|].
+    + destruct (bapp x); [|discriminate]. inv_some.
+      apply (linv_put_same s i c); auto. constructor; reflexivity.
+    + destruct (cst c); try discriminate. destruct (has_bid b (deadb c)); [|discriminate]. inv_some.
+      apply (linv_put_same s i c'); auto. constructor; reflexivity.
+  - (* SRetry *)
+    wc H c c' Hg Hf. destruct (get_some _ _ _ Hg) as (Hn & _).
+    destruct (take_bid b (inflight c)) as [[x f]|].
+    + inv_some. apply (linv_put_same s i c); auto. constructor; reflexivity.
+    + destruct (cst c); try discriminate. destruct (has_bid b (deadb c)); [|discriminate]. inv_some.
+      apply (linv_put_same s i c'); auto. constructor; reflexivity.
+  - (* SFail *)
+    wc H c c' Hg Hf. destruct (get_some _ _ _ Hg) as (Hn & _).
+    destruct (take_bid b (inflight c)) as [[x f]|].
+    + inv_some. apply (linv_put_same s i c); auto. constructor; reflexivity.
+    + destruct (take_bid b (queue c)) as [[x q]|].
+      * inv_some. apply (linv_put_same s i c); auto. constructor; reflexivity.
+      * destruct (cst c); try discriminate. destruct (has_bid b (deadb c)); [|discriminate]. inv_some.
+        apply (linv_put_same s i c'); auto. constructor; reflexivity.
+  - (* RAddParts *)
+    destruct (get s i) as [c|] eqn:Hg; [|discriminate]. destruct (get_some _ _ _ Hg) as (Hn & _).
+    destruct (slot_is c KParts SPicked && list_eqb ps (pend_parts c) && negb (is_niln ps)); [|discriminate].
+    destruct v.
+    + destruct (Nat.eqb (cep c) (eep (genv s)) && not_prep (genv s)) eqn:Gd; [|discriminate]. inv_some.
+      apply andb_prop in Gd. destruct Gd as [_ Np].
+      unfold ob in Ob. rewrite Hg in Ob.
+      apply linv_add; auto.
+      destruct (is_ongoing (genv s)).
+      * destruct (owner_is (genv s) (tagof i c)) eqn:Ow; [|discriminate]. apply owner_is_true in Ow. exact Ow.
+      * destruct (cowned c); [discriminate | reflexivity].
+    + inv_some. apply (linv_put_same s i c); auto. constructor; reflexivity.
+  - (* RAddOffs *)
+    destruct (get s i) as [c|] eqn:Hg; [|discriminate]. destruct (get_some _ _ _ Hg) as (Hn & _).
+    destruct (slot_is c KOffs SPicked); [|discriminate].
+    destruct v.
+    + destruct (Nat.eqb (cep c) (eep (genv s)) && not_prep (genv s)) eqn:Gd; [|discriminate]. inv_some.
+      apply andb_prop in Gd. destruct Gd as [_ Np].
+      unfold ob in Ob. rewrite Hg in Ob.
+      apply linv_add; auto.
+      destruct (is_ongoing (genv s)).
+      * destruct (owner_is (genv s) (tagof i c)) eqn:Ow; [|discriminate]. apply owner_is_true in Ow. exact Ow.
+      * destruct (cowned c); [discriminate | reflexivity].
+    + inv_some. apply (linv_put_same s i c); auto. constructor; reflexivity.
+  - (* RToc *)
+    destruct (get s i) as [c|] eqn:Hg; [|discriminate]. destruct (get_some _ _ _ Hg) as (Hn & _).
+    destruct (pend_offs c) as [|hd rest]; [discriminate|].
+    destruct (slot_is c KToc SPicked && list_eqb items hd); [|discriminate].
+    destruct v.
+    + destruct (Nat.eqb (cep c) (eep (genv s))); [|discriminate]. inv_some.
+      unfold ob in Ob. rewrite Hg in Ob.
+      destruct (is_ongoing (genv s) && memn GROUPP (eparts (genv s))) eqn:O1; [|discriminate]. simpl in Ob.
+      destruct (owner_is (genv s) (tagof i c)) eqn:O3; [|discriminate].
+      apply andb_prop in O1. destruct O1 as [O1 O1'].
+      apply (linv_append s i c GROUPP (cep c) items); auto.
+      * apply is_ongoing_true; auto.
+      * apply memn_In; auto.
+      * apply owner_is_true in O3. exact O3.
+    + inv_some. apply (linv_put_same s i c); auto. constructor; reflexivity.
+  - (* REndTxn *)
+    destruct (get s i) as [c|] eqn:Hg; [|discriminate]. destruct (get_some _ _ _ Hg) as (Hn & _).
+    match type of H with (if ?g then _ else _) = _ => destruct g eqn:Gd; [|discriminate] end.
+    apply andb_prop in Gd. destruct Gd as [Gd Gm].
+    apply andb_prop in Gd. destruct Gd as [Gd _]. apply andb_prop in Gd. destruct Gd as [Gd Gpo].
+    apply andb_prop in Gd. destruct Gd as [Gd _]. apply andb_prop in Gd. destruct Gd as [Gd Gi].
+    apply andb_prop in Gd. destruct Gd as [_ Gq].
+    apply is_niln_nil in Gpo. apply is_niln_nil in Gi. apply is_niln_nil in Gq.
+    assert (Kc : cst c = COMMITTING /\ commit = true \/ cst c = ABORTING /\ commit = false).
+    { destruct (cst c), commit; try discriminate; auto. }
+    destruct v.
+    + destruct (Nat.eqb (cep c) (eep (genv s))); [|discriminate].
+      unfold ob in Ob. rewrite Hg in Ob.
+      destruct (est (genv s)) eqn:Es; try discriminate.
+      * inv_some.
+        apply (linv_endtxn s i c commit _ Hn L (gcinv_get _ _ _ GC Hn) Kc Gq Gi Gpo); try reflexivity.
+        -- intros _. destruct (owner_is (genv s) (tagof i c)) eqn:O3; [|discriminate]. simpl in Ob.
+           apply owner_is_true in O3. split; [exact O3|]. intros ->. simpl in Ob.
+           destruct (lostb c); [discriminate | reflexivity].
+        -- intros c0 K. congruence.
+        -- left. auto.
+      * destruct (Bool.eqb commit0 commit) eqn:Eb; [|discriminate]. inv_some.
+        apply eqb_prop in Eb. subst commit0.
+        replace (put s i (set_csent (set_slot c (Some (KEnd, SApplied))) (csent c || commit)))
+          with (put_env (put s i (set_csent (set_slot c (Some (KEnd, SApplied))) (csent c || commit))) (genv s))
+          by reflexivity.
+        apply (linv_endtxn s i c commit _ Hn L (gcinv_get _ _ _ GC Hn) Kc Gq Gi Gpo); try reflexivity.
+        -- intros K. congruence.
+        -- intros c0 K. rewrite Es in K. inversion K; subst c0. split; [reflexivity|].
+           unfold last_done_owner in Ob. unfold last_done.
+           destruct (rev (edone (genv s))) as [|[o b] l]; [discriminate|].
+           destruct o as [o|]; [|discriminate]. destruct (tag_eqb o (tagof i c)) eqn:Te; [|discriminate].
+           exists b. unfold tag_eqb, tagof in Te. destruct o as [a k]. simpl in Te.
+           apply andb_prop in Te. destruct Te as [T1 T2]. apply Nat.eqb_eq in T1. apply Nat.eqb_eq in T2.
+           subst. reflexivity.
+        -- right. split; [eauto | reflexivity].
+    + inv_some. apply (linv_put_same s i c); auto. constructor; reflexivity.
+  - (* RProduce *)
+    destruct (nth_error (clients s) i) as [c|] eqn:Hn; [|discriminate].
+    destruct (take_bid b (inflight c ++ match cst c with FATAL => deadb c | _ => [] end)) as [[x r]|] eqn:T;
+      [|discriminate].
+    destruct v.
+    + destruct (Nat.eqb (cep c) (eep (genv s))); [|discriminate]. inv_some.
+      unfold ob in Ob. rewrite Hn, T in Ob.
+      destruct (is_ongoing (genv s) && memn (bpart x) (eparts (genv s))) eqn:O1; [|discriminate]. simpl in Ob.
+      destruct (Nat.eqb (btag x) (kcur c) && owner_is (genv s) (i, btag x)) eqn:O3; [|discriminate].
+      apply andb_prop in O1. destruct O1 as [O1 O1']. apply andb_prop in O3. destruct O3 as [O3 O3'].
+      apply Nat.eqb_eq in O3. rewrite O3 in *.
+      apply (linv_append s i c (bpart x) (cep c) (bitems x)); auto.
+      * apply is_ongoing_true; auto.
+      * apply memn_In; auto.
+      * apply owner_is_true in O3'. exact O3'.
+    + inv_some. exact L.
+Qed.
+
+(* ---------- from the initial state ------------------------------------------------------------------------ *)
+Lemma cl_g0 n i c : cl (g0 n) i = Some c -> c = client0.
+Proof. unfold cl, g0. simpl. intros H. apply nth_error_In in H. apply repeat_spec in H. exact H. Qed.
+
+Lemma linv_g0 n : linv (g0 n).
+Proof.
+  constructor; simpl; intros; try contradiction; try discriminate; auto;
+    try (apply cl_g0 in H; subst; try reflexivity; discriminate).
+Qed.
+
+Lemma step_ob_step s e s' : step_ob s e = Some s' -> step s e = Some s'.
+Proof. unfold step_ob. destruct (ob s e); [discriminate | auto]. Qed.
+
+Lemma run_ob_run : forall tr s s', run_ob s tr = Some s' -> run s tr = Some s'.
+Proof.
+  induction tr as [|e tr IH]; intros s s' H; [exact H|].
+  rewrite run_ob_cons in H. destruct (step_ob s e) as [s1|] eqn:S; [|discriminate].
+  simpl. rewrite (step_ob_step _ _ _ S). eauto.
+Qed.
+
+Lemma run_ob_inv : forall tr s s', run_ob s tr = Some s' -> gcinv s -> gsinv s -> linv s ->
+  gcinv s' /\ gsinv s' /\ linv s'.
+Proof.
+  induction tr as [|e tr IH]; intros s s' H GC GS L.
+  - inversion H; subst. auto.
+  - rewrite run_ob_cons in H. destruct (step_ob s e) as [s1|] eqn:S; [|discriminate].
+    pose proof (step_ob_step _ _ _ S) as S'.
+    apply (IH s1); auto.
+    + eapply step_gcinv; eauto.
+    + eapply step_gsinv; eauto.
+    + eapply step_linv; eauto.
+Qed.
+
+Lemma run_ob_g0 n tr s : run_ob (g0 n) tr = Some s -> gcinv s /\ gsinv s /\ linv s.
+Proof. intros H. eapply run_ob_inv; eauto. apply gcinv_g0. apply gsinv_g0. apply linv_g0. Qed.
+
+(* ---------- atomicity ------------------------------------------------------------------------------------------ *)
+(* what a read-committed reader sees was written by a transaction whose commit returned, or whose
+   EndTxn(commit) reached the coordinator (commit in progress / outcome not yet known to the
+   application) *)
+Theorem visible_only_if_committed n tr s :
+  run_ob (g0 n) tr = Some s ->
+  forall i k x p, In ((i, k), x) (rc_view_t (log_of p (glog (genv s)))) -> commit_known s i k.
+Proof.
+  intros H i k x p V. destruct (run_ob_g0 _ _ _ H) as (_ & _ & L).
+  apply (l_6 _ L). eapply (l_E3 _ L); eauto.
+Qed.
+
+(* nothing of a transaction whose abort returned is ever visible *)
+Theorem aborted_invisible n tr s :
+  run_ob (g0 n) tr = Some s ->
+  forall i k acc, In ((i, k), OAborted, acc) (ended s) ->
+  forall x p, ~ In ((i, k), x) (rc_view_t (log_of p (glog (genv s)))).
+Proof.
+  intros H i k acc A x p V. destruct (run_ob_g0 _ _ _ H) as (_ & _ & L).
+  destruct (l_7 _ L _ _ _ A) as (B & C).
+  destruct (visible_only_if_committed _ _ _ H _ _ _ _ V) as [(c & K1 & K2 & K3)|K]; [|auto].
+  rewrite (C c K1 K2) in K3. discriminate.
+Qed.
+
+(* nothing of a transaction for which no EndTxn(commit) was ever applied is visible: open, failed,
+   fenced and killed transactions included *)
+Theorem uncommitted_invisible n tr s :
+  run_ob (g0 n) tr = Some s ->
+  forall i c, cl s i = Some c -> csent c = false -> ~ ended_committed s (i, kcur c) ->
+  forall x p, ~ In ((i, kcur c), x) (rc_view_t (log_of p (glog (genv s)))).
+Proof.
+  intros H i c Hc Cs Ne x p V.
+  destruct (visible_only_if_committed _ _ _ H _ _ _ _ V) as [(c0 & K1 & K2 & K3)|K]; [|auto].
+  rewrite Hc in K1. inversion K1; subst c0. congruence.
+Qed.
+
+(* everything a transaction accepted is visible once its commit returned (or becomes visible with
+   the commit markers the coordinator is writing) *)
+Theorem committed_visible n tr s :
+  run_ob (g0 n) tr = Some s ->
+  forall i k acc, In ((i, k), OCommitted, acc) (ended s) ->
+  forall x p, In (x, p) acc -> vop s (i, k) x p.
+Proof. intros H i k acc A x p B. destruct (run_ob_g0 _ _ _ H) as (_ & _ & L). eapply (l_14 _ L); eauto. Qed.
+
+(* all or nothing while the outcome is in doubt: once EndTxn(commit) was applied, everything accepted *)
+Theorem in_doubt_all n tr s :
+  run_ob (g0 n) tr = Some s ->
+  forall i c, cl s i = Some c -> csent c = true ->
+  forall x p, In (x, p) (accepted c) -> vop s (i, kcur c) x p.
+Proof. intros H i c Hc Cs x p A. destruct (run_ob_g0 _ _ _ H) as (_ & _ & L). eapply (l_1 _ L); eauto. Qed.
+
+(* pending means: the only thing missing is the coordinator's marker write *)
+Lemma vop_after_markers s tg x p s' :
+  vop s tg x p -> step s EMarkers = Some s' -> In (tg, x) (rc_view_t (log_of p (glog (genv s')))).
+Proof.
+  intros V H. unfold step in H. destruct (est (genv s)) eqn:Es; try discriminate. inversion H; subst; clear H.
+  simpl. rewrite view_markers. destruct V as [V|(V1 & V2 & V3 & V4)].
+  - destruct (memn p (eparts (genv s)) && commit); [apply in_or_app; auto | exact V].
+  - rewrite Es in V2. inversion V2; subst. apply memn_In in V4. rewrite V4. simpl. apply in_or_app. auto.
+Qed.
